@@ -66,6 +66,19 @@ def _run(ctx, ncases, rec):
         if ref is not None:
           # MuJoCo leaves negative sentinels (not necessarily -1) for trees without island
           if int(ni[w]) != int(mjd.nisland) or not np.array_equal(np.maximum(got, -1), np.maximum(ref, -1)):
+            # an OBSERVED mismatch is attributed to the recorded constraint-stage deviation only when it is exactly that: mujoco_warp
+            # keeps equality rows whose Jacobian is identically zero (MuJoCo drops them), so their tree counts as constrained here
+            ne_w, n_w = int(d.ne.numpy()[w]), int(d.nefc.numpy()[w])
+            if ne_w > int(mjd.ne) and n_w - int(mjd.nefc) == ne_w - int(mjd.ne):
+              if m.is_sparse:
+                ra, rn, Jv = d.efc.J_rowadr.numpy()[w][:ne_w], d.efc.J_rownnz.numpy()[w][:ne_w], d.efc.J.numpy()[w][0]
+                nzero = sum(1 for r in range(ne_w) if not np.any(Jv[ra[r]: ra[r] + rn[r]] != 0))
+              else:
+                nzero = int((~np.any(d.efc.J.numpy()[w][:ne_w, : mjm.nv] != 0, axis=1)).sum())
+              if nzero >= ne_w - int(mjd.ne):
+                acc.find(f"tree_island {got.tolist()} vs MuJoCo {ref.tolist()}: {nzero} equality rows with identically zero Jacobian are kept here and dropped by MuJoCo, so their tree forms an island",
+                         "constraint._equality_connect/_equality_weld", "zero-jacobian-rows", xml=xml, world=w)
+                continue
             acc.find(f"tree_island {got.tolist()} (nisland {int(ni[w])}) vs MuJoCo {ref.tolist()} (nisland {int(mjd.nisland)})", "island.island", "vs-mujoco", xml=xml, world=w)
         # internal consistency: maps are inverse permutations
         if hasattr(d, "map_dof2idof") and d.map_dof2idof is not None:
